@@ -141,37 +141,19 @@ theorem dfsP (hf : FrcAgree c pv rootType root frc frc0) : ∀ fuel, DfsP c pv r
   | fuel + 1 => by
     have ih := dfsP hf fuel
     refine ⟨?_, ?_, ?_⟩
-    · intro v st st0 hvok h hv
-      simp only [dfsVal]
-      -- the value after the (at most one) call of a closure
-      have hstep : Agree c pv rootType root (fun v => OK v)
-          (match v with | .deferred cl => frc cl st | _ => (.ok v, st))
-          (match v with | .deferred cl => frc0 cl st0 | _ => (.ok v, st0)) := by
-        cases v with
-        | deferred cl => exact hf cl st st0 (allCl_deferred.1 hvok) h hv
-        | leaf j => exact agree_ok h hv hvok
-        | list xs => exact agree_ok h hv hvok
-        | obj fs => exact agree_ok h hv hvok
-      generalize hM : (match v with | .deferred cl => frc cl st | _ => (.ok v, st)) = xM at hstep ⊢
-      generalize h0 : (match v with | .deferred cl => frc0 cl st0 | _ => (.ok v, st0)) = x0 at hstep ⊢
-      obtain ⟨r1, st1⟩ := xM
-      obtain ⟨r1', st1'⟩ := x0
-      obtain ⟨hr1, hst, hval, hgood⟩ := hstep
-      simp only at hr1 hst hval hgood
-      subst hr1
-      cases r1 with
-      | fail => exact agree_fail hst hval
-      | fuelOut => exact agree_fuelOut hst hval
-      | ok x =>
-        have hx := hgood x rfl
+    · -- a value that is not a closure: descend
+      have key : ∀ (x : PVal) (st st0 : MSt), (∀ cl, x ≠ .deferred cl) → OK x → StRel st st0 →
+          Valid c pv rootType root st.memo →
+          Agree c pv rootType root (fun v => OK v) (dfsVal frc (fuel + 1) x st) (dfsVal frc0 (fuel + 1) x st0) := by
+        intro x st st0 hnd hx hst hval
         cases x with
-        | leaf j => exact agree_ok hst hval hx
-        | deferred cl => exact agree_ok hst hval hx
+        | leaf j => simp only [dfsVal]; exact agree_ok hst hval hx
+        | deferred cl => exact absurd rfl (hnd cl)
         | obj fs =>
-          simp only
-          have hfs := ih.fields (sortedKeys fs) fs st1 st1' (allCl_obj.1 hx) hst hval
-          generalize hM2 : dfsFields frc fuel (sortedKeys fs) fs st1 = yM at hfs ⊢
-          generalize h02 : dfsFields frc0 fuel (sortedKeys fs) fs st1' = y0 at hfs ⊢
+          simp only [dfsVal]
+          have hfs := ih.fields (sortedKeys fs) fs st st0 (allCl_obj.1 hx) hst hval
+          generalize hM2 : dfsFields frc fuel (sortedKeys fs) fs st = yM at hfs ⊢
+          generalize h02 : dfsFields frc0 fuel (sortedKeys fs) fs st0 = y0 at hfs ⊢
           obtain ⟨r2, st2⟩ := yM
           obtain ⟨r2', st2'⟩ := y0
           obtain ⟨hr2, hst2, hval2, hgood2⟩ := hfs
@@ -182,10 +164,10 @@ theorem dfsP (hf : FrcAgree c pv rootType root frc frc0) : ∀ fuel, DfsP c pv r
           | fail => exact agree_fail hst2 hval2
           | fuelOut => exact agree_fuelOut hst2 hval2
         | list xs =>
-          simp only
-          have hxs := ih.items xs [] st1 st1' (allCl_list.1 hx) (fun _ hm => by cases hm) hst hval
-          generalize hM2 : dfsItems frc fuel xs [] st1 = yM at hxs ⊢
-          generalize h02 : dfsItems frc0 fuel xs [] st1' = y0 at hxs ⊢
+          simp only [dfsVal]
+          have hxs := ih.items xs [] st st0 (allCl_list.1 hx) (fun _ hm => by cases hm) hst hval
+          generalize hM2 : dfsItems frc fuel xs [] st = yM at hxs ⊢
+          generalize h02 : dfsItems frc0 fuel xs [] st0 = y0 at hxs ⊢
           obtain ⟨r2, st2⟩ := yM
           obtain ⟨r2', st2'⟩ := y0
           obtain ⟨hr2, hst2, hval2, hgood2⟩ := hxs
@@ -195,6 +177,37 @@ theorem dfsP (hf : FrcAgree c pv rootType root frc frc0) : ∀ fuel, DfsP c pv r
           | ok xs' => exact agree_ok hst2 hval2 (allCl_list.2 (hgood2 xs' rfl))
           | fail => exact agree_fail hst2 hval2
           | fuelOut => exact agree_fuelOut hst2 hval2
+      intro v st st0 hvok h hv
+      cases v with
+      | leaf j => exact key _ st st0 (fun _ hh => by cases hh) hvok h hv
+      | list xs => exact key _ st st0 (fun _ hh => by cases hh) hvok h hv
+      | obj fs => exact key _ st st0 (fun _ hh => by cases hh) hvok h hv
+      | deferred cl =>
+        simp only [dfsVal]
+        have ha := hf cl st st0 (allCl_deferred.1 hvok) h hv
+        generalize hM : frc cl st = xM at ha ⊢
+        generalize h0 : frc0 cl st0 = x0 at ha ⊢
+        obtain ⟨r1, st1⟩ := xM
+        obtain ⟨r1', st1'⟩ := x0
+        obtain ⟨hr1, hst, hval, hgood⟩ := ha
+        simp only at hr1 hst hval hgood
+        subst hr1
+        cases r1 with
+        | fail => exact agree_fail hst hval
+        | fuelOut => exact agree_fuelOut hst hval
+        | ok x =>
+          have hx := hgood x rfl
+          cases x with
+          | leaf j => exact agree_ok hst hval hx
+          | deferred cl' => exact agree_ok hst hval hx
+          | obj fs =>
+            have := key (.obj fs) st1 st1' (fun _ hh => by cases hh) hx hst hval
+            simp only [dfsVal] at this
+            exact this
+          | list xs =>
+            have := key (.list xs) st1 st1' (fun _ hh => by cases hh) hx hst hval
+            simp only [dfsVal] at this
+            exact this
     · intro ks fs st st0 hfs h hv
       cases ks with
       | nil => simp only [dfsFields]; exact agree_ok h hv hfs
@@ -236,7 +249,7 @@ theorem dfsP (hf : FrcAgree c pv rootType root frc frc0) : ∀ fuel, DfsP c pv r
           intro y hy
           rcases List.mem_append.1 hy with hy | hy
           · exact hacc y hy
-          · simp only [List.mem_singleton] at hy; subst hy; exact hgood x' rfl
+          · simp only [List.mem_singleton] at hy; rw [hy]; exact hgood x' rfl
         | fail => exact agree_fail hst hval
         | fuelOut => exact agree_fuelOut hst hval
 
@@ -390,18 +403,28 @@ theorem executePlanCore_eq_ref (p : Plan) (hr : KeysNodup p.root) (inputs : Vars
       have ha := runPlan_agree { schema := (p.specialise vars).schema, frags := (p.specialise vars).frags, vars := vars, world := w }
         (p.specialise vars) rfl rfl (specialise_root_nodup p vars) fuel
         { errs := [], events := [], memo := [] } { errs := [], events := [], memo := [] } ⟨rfl, rfl⟩ valid_nil
+      generalize runPlan _ (abstractAlternative _ _ _) _ _ _ = xM at ha ⊢
+      generalize runPlan _ (recompute _ _ _) _ _ _ = x0 at ha ⊢
+      obtain ⟨r1, st1⟩ := xM
+      obtain ⟨r1', st1'⟩ := x0
       obtain ⟨h1, h2, _, _⟩ := ha
-      refine ⟨?_, fun hf => by simp [hd] at hf⟩
-      rw [h1, h2.1, h2.2]
+      simp only at h1 h2
+      subst h1
+      refine ⟨?_, fun hf => by simp at hf⟩
+      cases r1 <;> simp only [h2.1, h2.2]
     · have hd' : p.dynamicDirectives = false := by simpa using hd
       simp only [hd', Bool.false_eq_true, if_false]
       have ha := runPlan_agree { schema := p.schema, frags := p.frags, vars := vars, world := w } p rfl rfl hr fuel
         { errs := [], events := [], memo := m } { errs := [], events := [], memo := [] } ⟨rfl, rfl⟩ hv
+      generalize runPlan _ (abstractAlternative _ _ _) _ _ _ = xM at ha ⊢
+      generalize runPlan _ (recompute _ _ _) _ _ _ = x0 at ha ⊢
+      obtain ⟨r1, st1⟩ := xM
+      obtain ⟨r1', st1'⟩ := x0
       obtain ⟨h1, h2, h3, _⟩ := ha
+      simp only at h1 h2 h3
+      subst h1
       refine ⟨?_, fun _ => ?_⟩
-      · rw [h1, h2.1, h2.2]
-      · cases hres : (runPlan { schema := p.schema, frags := p.frags, vars := vars, world := w }
-            (abstractAlternative p.schema p.frags p.planVars) p fuel { errs := [], events := [], memo := m }).1 <;>
-          simp only <;> exact h3
+      · cases r1 <;> simp only [h2.1, h2.2]
+      · cases r1 <;> exact h3
 
 end GqlModel.Plan
